@@ -106,17 +106,19 @@ class Check:
                 self.count(line, impl[i], nontrivial(line, impl[i]))
                 if len(self.samples) < 6 and nontrivial(line, impl[i]) and self.rng.random() < 0.3:
                     self.samples.append({"family": family, "op": line, "impl": impl[i][:200], "model": model[i][:200]})
-                rec = {"family": family, "harness": harness, "variant": variant, "stateful": stateful,
-                       "lines": lines[: i + 1] if stateful else [line], "index": i, "line": line,
-                       "impl": impl[i], "model": model[i], "harness_args": harness_args}
+                def mkrec(i=i, line=line):
+                    # built only when needed: the prefix copy is quadratic on long stateful streams
+                    return {"family": family, "harness": harness, "variant": variant, "stateful": stateful,
+                            "lines": lines[: i + 1] if stateful else [line], "index": i, "line": line,
+                            "impl": impl[i], "model": model[i], "harness_args": harness_args}
                 if not cmp(impl[i], model[i]):
-                    disagreements.append(rec)
+                    disagreements.append(mkrec())
                     if stateful:
                         break
                 if judge:
                     w = judge(line, impl[i], model[i])
                     if w:
-                        r2 = dict(rec); r2["what"] = w
+                        r2 = mkrec(); r2["what"] = w
                         judged.append(r2)
             for r in reports:
                 crashes.append(r)
